@@ -17,7 +17,8 @@ package main
 //     single-assignment and topologically ordered.
 //
 // Modes: `equiv` (corpus + multiplier width sweep + generated programs),
-// `extreme` (extreme-shape programs, extreme.go), `replay <file>` (one
+// `extreme` (extreme-shape programs, extreme.go), `divs` (division sweep with
+// structured division operands, divsweep.go), `replay <file>` (one
 // recorded failing case), `probe` / `dump` (debugging aids).
 
 import (
@@ -29,6 +30,7 @@ import (
 	"path/filepath"
 	"regexp"
 	"runtime/debug"
+	"runtime/pprof"
 	"sort"
 	"strings"
 	"time"
@@ -212,6 +214,22 @@ func wellFormed(c *circuit.Circuit) string {
 	return ""
 }
 
+// sameCircuit: the two compiled circuits are identical (what comparing their
+// rendered lines decides, without rendering them).
+func sameCircuit(a, b *circuit.Circuit) bool {
+	if a.NumWires != b.NumWires || len(a.Gates) != len(b.Gates) || a.Inputs.Size() != b.Inputs.Size() ||
+		a.Outputs.Size() != b.Outputs.Size() {
+		return false
+	}
+	for i := range a.Gates {
+		g, h := &a.Gates[i], &b.Gates[i]
+		if g.Op != h.Op || g.Input0 != h.Input0 || g.Output != h.Output || (g.Op != circuit.INV && g.Input1 != h.Input1) {
+			return false
+		}
+	}
+	return true
+}
+
 // wiresInRange: every wire id of every gate is below NumWires (the
 // simulation can run on the circuit whatever the gate order).
 func wiresInRange(c *circuit.Circuit) bool {
@@ -314,6 +332,8 @@ type progCase struct {
 	usesMult bool
 	rngID    int    // selects the program's input-vector stream (0 = by position in the case list)
 	extreme  *xprog // extreme-shape program (extreme.go): reduced configuration set, correlated input vectors
+	wideDiv  bool     // generated program with division at a width that is not enumerated (divsweep.go): reduced configuration set
+	div      *divSpec // division-sweep program (divsweep.go): reduced configuration set, meaning oracle, `div` op line
 }
 
 var reBuilderFrame = regexp.MustCompile(`compiler/circuits\.(New[A-Za-z]+)\(`)
@@ -390,11 +410,19 @@ type limits struct {
 	maxInputsPair int  // programs with more input bits: no checker op line
 	skipRawStages bool // no staged compilation without passes / with ConstPropagate only (extreme programs, quick tier)
 	topoBaseGMW   bool // `topo` ops for the base configuration and the GMW configurations only
+	divBudget     int    // gate evaluations (x64 lanes) for the structured division vectors of one program (0 = none)
+	tier          string
 }
 
 func main() {
+	if pf := os.Getenv("C09_CPUPROFILE"); pf != "" {
+		if f, err := os.Create(pf); err == nil {
+			pprof.StartCPUProfile(f)
+			defer pprof.StopCPUProfile()
+		}
+	}
 	if len(os.Args) < 2 {
-		fmt.Fprintln(os.Stderr, "usage: c09 equiv|extreme [flags] | c09 replay <replay.json> | c09 probe <file.mpcl>...")
+		fmt.Fprintln(os.Stderr, "usage: c09 equiv|extreme|divs [flags] | c09 replay <replay.json> | c09 probe <file.mpcl>...")
 		os.Exit(2)
 	}
 	switch os.Args[1] {
@@ -402,6 +430,10 @@ func main() {
 		os.Exit(equiv(os.Args[2:]))
 	case "extreme":
 		os.Exit(extreme(os.Args[2:]))
+	case "divs":
+		rc := divs(os.Args[2:])
+		pprof.StopCPUProfile()
+		os.Exit(rc)
 	case "replay":
 		os.Exit(replay(os.Args[2:]))
 	case "probe":
@@ -437,10 +469,10 @@ func equiv(args []string) int {
 	}
 	rng := hxlib.NewRng(cf.Seed)
 	lim := limits{maxGatesSim: 150000, maxGatesPair: 60000, maxGatesLevel: 12000, randPasses: 4, simBudget: 150e6,
-		maxGatesTopo: 150000, maxInputsPair: 1 << 20}
+		maxGatesTopo: 150000, maxInputsPair: 1 << 20, divBudget: 300e6, tier: cf.Tier}
 	if cf.Tier == "thorough" {
 		lim = limits{maxGatesSim: 2500000, maxGatesPair: 400000, maxGatesLevel: 40000, randPasses: 16, simBudget: 3e9,
-			maxGatesTopo: 2500000, maxInputsPair: 1 << 20}
+			maxGatesTopo: 2500000, maxInputsPair: 1 << 20, divBudget: 6e9, tier: cf.Tier}
 	}
 	var cases []progCase
 	if strings.HasPrefix(cf.Extra, "file:") {
@@ -535,7 +567,7 @@ func mulSweep(r *hxlib.Rng, tier string) []progCase {
 
 func runProgram(o *hxlib.Out, r *hxlib.Rng, idx int, pc progCase, lim limits, pairsMeta *[]map[string]any) {
 	cfgs := allConfigs()
-	if pc.extreme != nil {
+	if pc.extreme != nil || pc.div != nil || pc.wideDiv {
 		cfgs = extremeConfigs(pc)
 	}
 	res := make([]compiled, len(cfgs))
@@ -600,7 +632,17 @@ func runProgram(o *hxlib.Out, r *hxlib.Rng, idx int, pc progCase, lim limits, pa
 			o.Fail("c09-compile-outcome-differs", d)
 			continue
 		}
-		lines[i] = hxlib.CircLine(res[i].circ)
+		// (rendering a multi-million-gate circuit costs ~100 MB: only where the
+		// line is used, i.e. for a `topo` op)
+		if len(res[i].circ.Gates) <= lim.maxGatesTopo {
+			lines[i] = hxlib.CircLine(res[i].circ)
+		}
+	}
+	sameAsBase := func(i int) bool {
+		if lines[i] != "" {
+			return lines[i] == baseLine
+		}
+		return sameCircuit(res[i].circ, base.circ)
 	}
 	// ---- structural sanity of every compiled circuit: single assignment and
 	// every gate input an input wire or the output of an EARLIER gate (the
@@ -621,7 +663,7 @@ func runProgram(o *hxlib.Out, r *hxlib.Rng, idx int, pc progCase, lim limits, pa
 			continue
 		}
 		msg := wellFormed(ri.circ)
-		if len(ri.circ.Gates) <= lim.maxGatesTopo && len(ri.circ.Gates) > 0 && (i == 0 || lines[i] != baseLine) &&
+		if len(ri.circ.Gates) <= lim.maxGatesTopo && len(ri.circ.Gates) > 0 && (i == 0 || !sameAsBase(i)) &&
 			(!lim.topoBaseGMW || i == 0 || cfgs[i].tgt == utils.TargetGMW) {
 			o.Op(fmt.Sprintf("c09 topo %s|%s %s", strings.ReplaceAll(pc.name, " ", "_"), cfgs[i].name, lines[i]),
 				fmt.Sprintf("ssa=%v", msg == ""))
@@ -664,7 +706,7 @@ func runProgram(o *hxlib.Out, r *hxlib.Rng, idx int, pc progCase, lim limits, pa
 			o.Count("config_skipped_too_big")
 			continue
 		}
-		if i > 0 && lines[i] == baseLine {
+		if i > 0 && sameAsBase(i) {
 			o.Count("config_identical_to_base")
 			continue
 		}
@@ -758,6 +800,11 @@ func runProgram(o *hxlib.Out, r *hxlib.Rng, idx int, pc progCase, lim limits, pa
 				reportMismatch(o, idx, pc, cfgs[0], cfgs[i], base.circ, res[i].circ, x, sizes, true, illFormed[i])
 			}
 		}
+	}
+	// ---- structured division operands (divsweep.go): every program that
+	// divides and is not enumerated
+	if pc.usesDiv && !exhaustive && lim.divBudget > 0 && len(sim) > 1 {
+		divStructured(o, r, idx, pc, cfgs, res, sim, sizes, probe, lim, lim.tier, failed, divZeroSeen, illFormed)
 	}
 	for range sim[1:] {
 		o.Count("config_pairs_simulated")
@@ -1064,6 +1111,15 @@ func lowestLane(m uint64) int {
 // reportMismatch records a concrete input on which two configurations differ.
 // divZero: every differing vector of the pass had a zero divisor (probe).
 func reportMismatch(o *hxlib.Out, idx int, pc progCase, ca, cb config, A, B *circuit.Circuit, x []bool, sizes []int, divZero bool, illFormedB string) {
+	if divZero && pc.div != nil {
+		// the division sweep: every program of it divides by its raw argument, the
+		// a/0 difference (known finding) is recorded for the first two
+		// configurations only - a run keeps 20 failures
+		o.Count("div_zero_divisor_differences")
+		if o.Counters["div_zero_divisor_differences"] > 2 {
+			return
+		}
+	}
 	d := map[string]any{"case": idx, "prog": pc.name, "src": pc.src, "config_a": ca.name, "config_b": cb.name,
 		"x": hxlib.BitsString(x), "args": clip(argsString(x, sizes), 400), "out_a": clip(realCompute(A, x), 400), "out_b": clip(realCompute(B, x), 400),
 		"replay": "c09 replay <this file>: compiles src for config_a and config_b and runs Circuit.Compute on x"}
@@ -1466,6 +1522,16 @@ func replay(args []string) int {
 		if oa != ob {
 			fmt.Println("REPRODUCED: the two configurations give different outputs on this input")
 			rc = 1
+		}
+		if want := str("want"); want != "" {
+			// a meaning failure of a division-sweep program: the recorded integer
+			// quotient / remainder against Circuit.Compute under config_b
+			got := outValues(B.circ, x)
+			fmt.Printf("meaning (integer quotient / remainder): %s\nCompute under %s as numbers: %s\n", want, nb, got)
+			if got != want {
+				fmt.Printf("REPRODUCED: the circuit of %s does not compute the meaning on this input\n", nb)
+				rc = 1
+			}
 		}
 	}
 	return rc
